@@ -49,6 +49,14 @@ CLAIMED.update({
     ),
 })
 
+CLAIMED.update({
+    "C07": (
+        "SSA pattern rules on TParm and its stack (dispatch exhaustiveness, operand order, guards, loop termination, index bounds) + exhaustive parse of every parameterised constant with the reference terminfo(5) parser",
+        "Structural necessary conditions on the interpreter (all paths) and exhaustive conditions on the data it is fed: the %-dispatch covers the terminfo(5) alphabet; each binary operator applies the matching Go operator to (second pop, first pop) with zero-guarded division; stack coercions and empty-stack behaviour have the specified shape; the skip scanner tracks nested conditionals; every loop terminates at end of input; array indices are guarded; and every parameterised string in the 49 entries and in the library's literals is a well-formed program using only implemented operators and supplied parameters. It does not decide the value each handler computes on arbitrary programs (printf details, %c of unusual values, static variables).",
+        "Trusted: the operator alphabet frozen from terminfo(5); reference parser (self-tested); go/ssa.",
+    ),
+})
+
 # id -> reason for properties not (yet) claimed
 NOT_APPLICABLE = {
 }
